@@ -276,43 +276,97 @@ func c12ManyArgs(elements int) c12Cmd {
 
 type c12Reader struct {
 	buf  int
-	frag string
-	cuts func(n int) []int
+	frag string // whole | 1byte | mid | pages
+}
+
+// c12RunResume: the offset reported for the end of the first (large) command is used the way
+// a checkpoint is - a fresh decoder / a fresh parser is started on the stream at exactly that
+// position and must deliver exactly the remaining commands with the right end offsets.
+func c12RunResume(s c12Scn) mc.Result {
+	f := c12Guard(func() *c12Fail {
+		cmds := s.commands()
+		data, ends, _ := s.stream(cmds)
+		fail := func(via, clause string, d map[string]interface{}) *c12Fail {
+			d["via"] = via
+			d["end_of_first_command"] = ends[0]
+			d["stream_len"] = len(data)
+			return &c12Fail{clause, via, d}
+		}
+		// decoder
+		dec := client.NewDecoder(bufio.NewReaderSize(&fragReader{data: data}, 4096))
+		_, off, err := client.MustDecodeOpt(dec)
+		if err != nil {
+			return fail("decoder", "decoder fails on a well-formed multi-bulk command", map[string]interface{}{"err": err.Error()})
+		}
+		if off < 0 || off > int64(len(data)) {
+			return fail("decoder", "offset reported for the end of a command lies outside the stream", map[string]interface{}{"reported": off})
+		}
+		rest := data[off:]
+		restEnds := make([]int64, 0, len(ends)-1)
+		for _, e := range ends[1:] {
+			restEnds = append(restEnds, e-off)
+		}
+		if f := c12DecodeRun(rest, cmds[1:], restEnds, 4096, &fragReader{data: rest}, nil); f != nil {
+			f.clause = "a decoder started at the offset reported for the end of the previous command: " + f.clause
+			f.detail["resumed_at"] = off
+			f.detail["next_bytes"] = q(rest)
+			return fail("decoder", f.clause, f.detail)
+		}
+		// parser (the tool's own adder)
+		const start = int64(1<<32 + 7)
+		ro := c12Output(0)
+		sendBuf := make(chan cmdExecution, len(cmds)+4)
+		wc := usync.NewWaitCloser(func(error) {})
+		perr := ro.parseAofCommand(wc, bufio.NewReaderSize(&fragReader{data: data}, 65536), start, sendBuf)
+		wc.Close(nil)
+		close(sendBuf)
+		var first *cmdExecution
+		for c := range sendBuf {
+			if first == nil {
+				cc := c
+				first = &cc
+			}
+		}
+		if first == nil {
+			return fail("parser", "the parser hands over nothing for a well-formed stream", map[string]interface{}{"err": fmt.Sprint(perr)})
+		}
+		at := first.Offset - start
+		if at < 0 || at > int64(len(data)) {
+			return fail("parser", "offset attached to a command lies outside the stream", map[string]interface{}{"attached": first.Offset, "start_offset": start})
+		}
+		rest = data[at:]
+		restEnds = restEnds[:0]
+		for _, e := range ends[1:] {
+			restEnds = append(restEnds, e-at)
+		}
+		if f := c12ParseRun(rest, cmds[1:], restEnds, 4096, &fragReader{data: rest}, first.Offset, 0); f != nil {
+			f.detail["resumed_at"] = first.Offset
+			f.detail["next_bytes"] = q(rest)
+			return fail("parser", "a parser started at the offset attached to the previous command: "+f.clause, f.detail)
+		}
+		return nil
+	})
+	if f != nil {
+		f.detail["stream_shape"] = s.shape()
+		return mc.Violation(f.clause, "C12:resume:"+f.kind+":"+s.shape(), f.detail)
+	}
+	return mc.OK(mc.Hash("resume", strconv.Itoa(s.Count), strconv.Itoa(s.BulkLen)), true, 2)
 }
 
 // c12RunBoundaries enumerates the boundary cases; every case is ONE decoder / parser /
-// encoder run and one execution.
+// encoder run and one execution. A regression can bring its own threshold, so the sweep
+// follows the powers of two, not only the constants that exist in the tree today.
 func c12RunBoundaries(rep *mc.Reporter, mine func() bool, thorough bool, decoderRuns, parserRuns *int64) {
-	mid := func(n int) []int { return []int{n / 2, n - 1} }
-	pages := func(n int) []int { // a read boundary every 4093 bytes
-		var c []int
-		for p := 4093; p < n; p += 4093 {
-			c = append(c, p)
-		}
-		return c
-	}
 	dec := func(s c12Scn, r c12Reader) {
 		if !mine() {
 			return
 		}
 		rep.Scenario()
 		s.Path, s.Fam, s.Buf, s.Frag, s.HB = "decode", "boundary", r.buf, r.frag, []int{0, 0}
-		if r.cuts != nil {
-			n := 16*s.Count + s.BulkLen + 64
-			if s.Count > 0 || s.BulkLen > 0 {
-				cmds := s.commands()
-				data, _, _ := s.stream(cmds)
-				n = len(data)
-			}
-			s.Cuts = r.cuts(n)
-		}
 		res, v, runs := c12RunDecode(s, false)
 		*decoderRuns += int64(runs)
 		if v != nil {
 			s = *v
-		}
-		if len(s.Cuts) > 8 {
-			s.Cuts = s.Cuts[:8] // keep the evidence small; replay of such a case uses the first cuts only
 		}
 		rep.Exec(s, nil, res)
 	}
@@ -334,59 +388,86 @@ func c12RunBoundaries(rep *mc.Reporter, mine func() bool, thorough bool, decoder
 		s.Path, s.Fam, s.Buf, s.RBuf, s.HB = path, "boundary", wsize, rsize, []int{0, 0}
 		rep.Exec(s, nil, c12RunEncode(s))
 	}
+	resume := func(s c12Scn) {
+		if !mine() {
+			return
+		}
+		rep.Scenario()
+		s.Path, s.Fam, s.HB = "resume", "boundary", []int{0, 0}
+		rep.Exec(s, nil, c12RunResume(s))
+	}
+	around := func(ks []int) []int {
+		var out []int
+		for _, k := range ks {
+			out = append(out, 1<<uint(k)-1, 1<<uint(k), 1<<uint(k)+1)
+		}
+		return out
+	}
+	seq := func(lo, hi int) []int {
+		var out []int
+		for k := lo; k <= hi; k++ {
+			out = append(out, k)
+		}
+		return out
+	}
 
-	// (1) element counts around 2^20 (quick) and around 2^16 (thorough), short arguments
-	for _, e := range []int{1<<20 - 1, 1 << 20, 1<<20 + 1} {
-		dec(c12Scn{Count: e}, c12Reader{buf: 4096, frag: "whole"})
-		par(c12Scn{Count: e}, 65536, 1<<32+7, 0)
-		if thorough {
-			dec(c12Scn{Count: e}, c12Reader{buf: 16, frag: "cuts", cuts: mid})
-			dec(c12Scn{Count: e}, c12Reader{buf: 1 << 20, frag: "1byte"})
-			dec(c12Scn{Count: e}, c12Reader{buf: 65536, frag: "cuts", cuts: pages})
-			par(c12Scn{Count: e}, 16, 0, 2)
-			enc(c12Scn{Count: e}, "encode-writer", 1<<20, 512*1024)
+	// (1) element counts 2^k-1, 2^k, 2^k+1: k in {16, 20} (quick), 10..21 (thorough); short arguments
+	cks := []int{16, 20}
+	if thorough {
+		cks = seq(10, 21)
+	}
+	for _, e := range around(cks) {
+		big := e >= 1<<20-1
+		dec(c12Scn{Count: e}, c12Reader{4096, "whole"})
+		if big {
+			par(c12Scn{Count: e}, 65536, 1<<32+7, 0)
+		} else {
+			par(c12Scn{Count: e}, 65536, 1000, 0)
 			enc(c12Scn{Count: e}, "encode-resp", 4096, 32)
 		}
-	}
-	counts := []int{1<<16 - 1, 1 << 16, 1<<16 + 1}
-	if thorough {
-		// element count on both sides of the encoder's integer table (524287 is its last entry)
-		counts = append(counts, 512*1024-1, 512*1024, 512*1024+1)
-	}
-	for _, e := range counts {
-		dec(c12Scn{Count: e}, c12Reader{buf: 4096, frag: "whole"})
-		par(c12Scn{Count: e}, 65536, 1000, 0)
-		enc(c12Scn{Count: e}, "encode-resp", 4096, 32)
 		if thorough {
-			dec(c12Scn{Count: e}, c12Reader{buf: 16, frag: "1byte"})
-			dec(c12Scn{Count: e}, c12Reader{buf: 65536, frag: "cuts", cuts: mid})
-			enc(c12Scn{Count: e}, "encode-writer", 64, 32)
+			dec(c12Scn{Count: e}, c12Reader{16, "mid"})
+			dec(c12Scn{Count: e}, c12Reader{65536, "pages"})
+			resume(c12Scn{Count: e})
+			if e >= 1<<16-1 {
+				dec(c12Scn{Count: e}, c12Reader{1 << 20, "1byte"})
+				par(c12Scn{Count: e}, 16, 0, 2)
+				enc(c12Scn{Count: e}, "encode-writer", 1<<20, 512*1024)
+				if big {
+					enc(c12Scn{Count: e}, "encode-resp", 4096, 32)
+				}
+			}
 		}
 	}
-	// (2) bulk lengths around 2^16, the integer table bound 524287|524288 and 2^20 (quick), 2^24 (thorough)
-	lens := []int{1<<16 - 1, 1 << 16, 1<<16 + 1, 512*1024 - 1, 512 * 1024, 512*1024 + 1, 1<<20 - 1, 1 << 20, 1<<20 + 1}
+	// (2) bulk lengths 2^k-1, 2^k, 2^k+1: k in {16, 19, 20, 24, 25} (quick), 16..26 (thorough);
+	// one large argument per stream. 2^19 = the end of the encoder's integer table (524287).
+	lks := []int{16, 19, 20, 24, 25}
 	if thorough {
-		lens = append(lens, 1<<24-1, 1<<24, 1<<24+1)
+		lks = seq(16, 26)
 	}
-	for _, l := range lens {
-		dec(c12Scn{BulkLen: l}, c12Reader{buf: 4096, frag: "whole"})
-		dec(c12Scn{BulkLen: l}, c12Reader{buf: 65536, frag: "cuts", cuts: mid})
+	for _, l := range around(lks) {
+		dec(c12Scn{BulkLen: l}, c12Reader{4096, "whole"})
+		dec(c12Scn{BulkLen: l}, c12Reader{65536, "mid"})
 		par(c12Scn{BulkLen: l}, 1<<20, 1<<32+7, 0)
-		enc(c12Scn{BulkLen: l}, "encode-resp", 4096, 32)
-		enc(c12Scn{BulkLen: l}, "encode-writer", 4096, 512*1024)
+		resume(c12Scn{BulkLen: l})
+		if l <= 1<<20+1 || (thorough && l <= 1<<24+1) {
+			enc(c12Scn{BulkLen: l}, "encode-resp", 4096, 32)
+			enc(c12Scn{BulkLen: l}, "encode-writer", 4096, 512*1024)
+		}
 		if thorough {
-			dec(c12Scn{BulkLen: l}, c12Reader{buf: 16, frag: "1byte"})
-			dec(c12Scn{BulkLen: l}, c12Reader{buf: 1 << 20, frag: "cuts", cuts: pages})
+			dec(c12Scn{BulkLen: l}, c12Reader{16, "1byte"})
+			dec(c12Scn{BulkLen: l}, c12Reader{1 << 20, "pages"})
+			par(c12Scn{BulkLen: l}, 16, 0, 2)
 		}
 	}
-	// (3) the connection's buffer sizes: writer 1 MiB, reply reader 512 KiB; the argument
-	// (plus the few header bytes before it) ends just below, at and above each of them
+	// (3) the connection's buffer sizes: writer 1 MiB, reply reader 512 KiB, stream reader 64 KiB;
+	// the argument (plus the few header bytes before it) ends just below, at and above each of them
 	for d := -24; d <= 2; d++ {
 		if !thorough && d < -16 && d%4 != 0 {
 			continue
 		}
 		enc(c12Scn{BulkLen: 1<<20 + d}, "encode-writer", 1<<20, 512*1024)
 		enc(c12Scn{BulkLen: 512*1024 + d}, "encode-writer", 1<<20, 512*1024)
-		dec(c12Scn{BulkLen: 65536 + d}, c12Reader{buf: 65536, frag: "whole"})
+		dec(c12Scn{BulkLen: 65536 + d}, c12Reader{65536, "whole"})
 	}
 }
